@@ -210,10 +210,13 @@ func safeWritePhase(c Case) (w written) {
 
 // ---------- the stream case ----------
 
-// readTimeout runs a blocking Read. starved (may be nil) is closed by the fake connection when the
-// library's reader goroutine waits for input that will never come: everything it could decode has
-// been queued for Read before that, so a Read that has not returned a short grace period later never will.
-func readTimeout(f func() ([]byte, error), starved <-chan struct{}) (b []byte, err error, hung bool) {
+// readTimeout runs a blocking Read of a transport whose input is produced by the (sequential)
+// harness. starved (may be nil) is closed by the fake connection when the library's reader goroutine
+// asks for input after everything has been delivered: whatever it could decode has been queued for
+// Read before that. The decision "this Read will never return" is then made without a clock:
+// onStarved closes the fake connection, the reader goroutine ends, and Read returns either the queued
+// message or the transport's closed error. The timers are only a safety net against a spinning library.
+func readTimeout(f func() ([]byte, error), starved <-chan struct{}, onStarved func()) (b []byte, err error, hung bool) {
 	type res struct {
 		b   []byte
 		err error
@@ -228,18 +231,23 @@ func readTimeout(f func() ([]byte, error), starved <-chan struct{}) (b []byte, e
 		b, err := f()
 		ch <- res{b, err}
 	}()
-	t := time.NewTimer(15 * time.Second)
+	t := time.NewTimer(90 * time.Second)
 	defer t.Stop()
 	select {
 	case r := <-ch:
 		return r.b, r.err, false
 	case <-starved:
-		g := time.NewTimer(2 * time.Second)
-		defer g.Stop()
+		// prefer a result that is already there
 		select {
 		case r := <-ch:
 			return r.b, r.err, false
-		case <-g.C:
+		default:
+		}
+		onStarved()
+		select {
+		case r := <-ch:
+			return r.b, r.err, false
+		case <-t.C:
 			return nil, nil, true
 		}
 	case <-t.C:
@@ -318,11 +326,13 @@ func runStream(c Case) []V {
 			vs.add("new-error:"+where, "quic.New: %v", err)
 			return vs.list
 		}
-		read = func() ([]byte, error, bool) { return readTimeout(t.Read, recv.starved) }
+		read = func() ([]byte, error, bool) {
+			return readTimeout(t.Read, recv.starved, func() { conn.CloseWithError(0, "c13: the whole stream has been delivered") })
+		}
 		rx = t.RxBytesCounterValue
 		finish = func() {
 			t.Close()
-			b, err, hung := readTimeout(t.Read, nil)
+			b, err, hung := readTimeout(t.Read, nil, nil)
 			if hung {
 				vs.add("read-after-close-hang:"+where, "Read blocks after Close")
 			} else if err == nil {
@@ -484,7 +494,7 @@ func runDgram(c Case) []V {
 		var u transport.UnreliableTransport
 		u, _ = t.AsUnreliable()
 		for i, m := range c.Seq {
-			got, err, hung := readTimeout(u.Read, conn.dgStarved)
+			got, err, hung := readTimeout(u.Read, conn.dgStarved, func() { conn.CloseWithError(0, "c13: all datagrams have been delivered") })
 			if hung {
 				vs.add("peer-read-hang:"+where, "message %d (%s) of [%s]: unreliable Read did not return", i, m, seqString(c.Seq))
 				return vs.list
